@@ -640,7 +640,14 @@ func (x *XRefParser) ParseAllXRefs() ([]*XRefTable, error) {
 
 	// Parse previous XRefs
 	currentTable := mainTable
+	seenPrev := make(map[int64]bool) // /Prev offsets already followed (guards against cycles)
 	for {
+		if prevObj, ok := currentTable.Trailer.Get("Prev").(Int); ok {
+			if seenPrev[int64(prevObj)] {
+				return nil, fmt.Errorf("cyclic /Prev chain at offset %d", int64(prevObj))
+			}
+			seenPrev[int64(prevObj)] = true
+		}
 		prevTable, err := x.ParsePrevXRef(currentTable)
 		if err != nil {
 			return nil, fmt.Errorf("failed to parse prev xref: %w", err)
